@@ -107,6 +107,23 @@ def plane(tier: str, rng: random.Random) -> List[Tuple[str, Any, Any]]:
             out += [("pred", ("PStartsWith", q), x), ("pred", ("PEndsWith", q), x)]
         for pr in (("Strip",), ("Upper",), ("Lower",)):
             out.append(("proc", pr, x))
+    # every candidate whitespace character on its own and around a letter: which ones strip / blank removes
+    for cpt in range(256):
+        for x in (G.B(bytes([cpt])), G.B(bytes([cpt]) + b"a" + bytes([cpt]))):
+            out += [("proc", ("Strip",), x), ("pred", ("PNotBlank",), x)]
+    uni = list(range(0, 0x100)) + [0x1680, 0x180e] + list(range(0x2000, 0x2010)) + list(range(0x2028, 0x2030)) + \
+        [0x205f, 0x2060, 0x3000, 0xfeff, 0x85, 0xa0, 0x1c, 0x1d, 0x1e, 0x1f]
+    for cpt in uni:
+        for x in (G.S(chr(cpt)), G.S(chr(cpt) + "a" + chr(cpt))):
+            out += [("proc", ("Strip",), x), ("pred", ("PNotBlank",), x)]
+    # counts and lengths with negative parameters (the whole bounded parameter domain, not only the sensible half)
+    for n in (-3, -1):
+        for x in (G.S(""), G.S("a"), G.B(b""), G.B(b"a")):
+            out += [("pred", ("PMinLength", n), x), ("pred", ("PMaxLength", n), x), ("pred", ("PExactLength", n), x)]
+        for x in (("VList", []), ("VList", [G.I(1)]), ("VTuple", []), ("VSet", []), ("VSet", [G.I(1)])):
+            out += [("pred", ("PMinItems", n), x), ("pred", ("PMaxItems", n), x), ("pred", ("PExactItemCount", n), x)]
+        for d in (("VDict", []), ("VDict", [P(G.I(1), G.NONE)])):
+            out += [("pred", ("PMinKeys", n), d), ("pred", ("PMaxKeys", n), d)]
     for s in ["ß", "éA", "ǅ", "İ", "ﬁ", "σς", " é "]:
         for pr in (("Strip",), ("Upper",), ("Lower",)):
             out.append(("proc", pr, G.S(s)))
